@@ -601,13 +601,41 @@ func replaceFunc(arg1, arg2, arg3 query) func(query, iterator) interface{} {
 			panic(fmt.Errorf("replace() function second argument is not a valid regexp pattern, err: %s", err.Error()))
 		}
 
-		// replace all $i to ${i} for golang regexp.Expand
-		for idx := e.NumSubexp(); idx > 0; idx-- {
-			dst = strings.ReplaceAll(dst, fmt.Sprintf("$%d", idx), fmt.Sprintf("${%d}", idx))
-		}
+		// XPath's $N references become ${N} for golang regexp.Expand
+		dst = rewriteGroupRefs(dst, e.NumSubexp())
 
 		return e.ReplaceAllString(str, dst)
 	}
+}
+
+// rewriteGroupRefs turns the group references of an XPath replacement string
+// into Go's template syntax. A "$" followed by digits refers to a capture
+// group: the longest prefix of the digits that is the number of an existing
+// group (0 is the whole match) is the reference and is written as "${N}", the
+// remaining digits are literal text. If not even the first digit numbers a
+// group, that digit alone is the (empty) reference. Written with braces, a
+// reference is never extended by the letters or digits that follow it.
+func rewriteGroupRefs(dst string, groups int) string {
+	var b strings.Builder
+	for i := 0; i < len(dst); i++ {
+		if dst[i] != '$' || i+1 == len(dst) || dst[i+1] < '0' || dst[i+1] > '9' {
+			b.WriteByte(dst[i])
+			continue
+		}
+		n, ref, val := 0, 0, 0
+		for j := i + 1; j < len(dst) && dst[j] >= '0' && dst[j] <= '9' && val <= groups; j++ {
+			val = val*10 + int(dst[j]-'0')
+			if val <= groups {
+				n, ref = j-i, val
+			}
+		}
+		if n == 0 {
+			n, ref = 1, int(dst[i+1]-'0')
+		}
+		b.WriteString("${" + strconv.Itoa(ref) + "}")
+		i += n
+	}
+	return b.String()
 }
 
 // notFunc is XPATH functions not(expression) function operation.
